@@ -3638,6 +3638,21 @@ fn f_tokens_case(m: &mut Model, rep: &mut Report, r: &mut Rng, words: &[String],
     if rep.samples.len() < 14 && words.len() > 6 && r.chance(1, 40) {
         rep.sample(json!({"stream": stream, "text": rd.text, "real": imp, "model": model}));
     }
+    // normal form on the implementation: re-print the accepted tree minimally, parse again, same AST
+    if imp.starts_with("ok") && (stream.ends_with("soup") || stream.ends_with("mutant") || stream.ends_with("all")) {
+        let norm = m.ask(&format!("fnormal expr {line}"));
+        if let Some(nw) = norm.strip_prefix("ok ") {
+            let nwords = words_of(nw);
+            let rd2 = f_render(&nwords, r, false);
+            let imp2 = f_real_expr(&rd2);
+            rep.hit(if nwords == words { "full.normal_form.already_minimal" } else { "full.normal_form.reprinted_differently" });
+            if imp2 != imp {
+                viol_once(rep, "neumann_parser::parse_expr/normal_form",
+                    &format!("minimal re-print of an accepted expression parses differently: {imp} vs {imp2}"),
+                    json!({"text": rd.text, "reprinted": rd2.text}));
+            }
+        }
+    }
     // the renderer's claim: the text has exactly these tokens (checked on a sample, through the lexer model)
     if r.chance(1, 12) {
         let real = lex_case(m, rep, &rd.text, "lex.rendered");
@@ -4453,6 +4468,7 @@ fn main() {
         "full.result.err_unexpected_end_of_expression", "full.result.err_invalid_qualwild",
         "full.result.err_invalid_case_no_when", "full.result.err_invalid_exists", "full.stmt.outside",
         "full.stmt.result.ok", "full.stmt.result.err_too_deep",
+        "full.normal_form.already_minimal", "full.normal_form.reprinted_differently",
     ] {
         rep.expected_branches.push(k.to_string());
     }
